@@ -132,3 +132,12 @@ package planar
 //@   floats abstract
 //@   function
 //@   ensures same(result, segDist2(p1, p2, point))
+
+// distance from a line: the minimum, taken left to right, of the point-segment distances over ALL its
+// segments (no segment is skipped), square-rooted at the end
+//@ spec minSeg(ls orb.LineString, p orb.Point, n int) float64 = ite(n <= 0, math.Inf(1), ite(segmentDistanceFromSquared(ls[n-1], ls[n], p) < minSeg(ls, p, n-1), segmentDistanceFromSquared(ls[n-1], ls[n], p), minSeg(ls, p, n-1)))
+//@ func lineStringDistanceFrom(ls, p) (d, idx)
+//@   floats abstract
+//@   function
+//@   ensures same(d, math.Sqrt(minSeg(ls, p, len(ls) - 1)))
+//@   loop 1: invariant 0 <= i && (i <= len(ls) - 1 || len(ls) == 0) && same(dist, minSeg(ls, p, i))
